@@ -863,24 +863,28 @@ package lorawan
 //@ func (*EUI64).UnmarshalText
 //@   props C09 C10 C11
 //@   modifies *e
+//@   ensures C11/text-length: err == nil ==> len(text) == 16 || len(text) == 18
 //@ func (*EUI64).Scan
 //@   props C09 C10 C11
 //@   modifies *e
 //@ func (*DevAddr).UnmarshalText
 //@   props C09 C10 C11
 //@   modifies *a
+//@   ensures C11/text-length: err == nil ==> len(text) == 8 || len(text) == 10
 //@ func (*DevAddr).Scan
 //@   props C09 C10 C11
 //@   modifies *a
 //@ func (*NetID).UnmarshalText
 //@   props C09 C10 C11
 //@   modifies *n
+//@   ensures C11/text-length: err == nil ==> len(text) == 6 || len(text) == 8
 //@ func (*NetID).Scan
 //@   props C09 C10 C11
 //@   modifies *n
 //@ func (*AES128Key).UnmarshalText
 //@   props C09 C10 C11
 //@   modifies *k
+//@   ensures C11/text-length: err == nil ==> len(text) == 32 || len(text) == 34
 //@ func (*AES128Key).Scan
 //@   props C09 C10 C11
 //@   modifies *k
